@@ -65,20 +65,6 @@ Definition print_uses_installed (dirs : list node) : bool :=
 Section BodyX.
 Variable w : node -> M value.
 
-(* as [print_dirs]: name and arity of each directive checked before its arguments are evaluated *)
-Fixpoint print_dirs_x (l : list node) : M (list (bstr * list value)) :=
-  match l with
-  | [] => ret (map (fun nm => (nm, @nil value)) (c_oblig cf))
-  | NDirective _ name args :: r =>
-      match dir_entry_x name with
-      | None => fail e_nodirective
-      | Some (arglens, _) =>
-          if negb (check_num_args arglens (length args)) then fail e_arity
-          else vs <-- eval_list w args ;;; rest <-- print_dirs_x r ;;; ret ((name, vs) :: rest)
-      end
-  | _ :: _ => fail e_unknown
-  end.
-
 Fixpoint apply_directives_x (dirs : list (bstr * list value)) (v : value) (esc : bool) : outcome (value * bool) :=
   match dirs with
   | [] => Ok (v, esc)
@@ -91,6 +77,25 @@ Fixpoint apply_directives_x (dirs : list (bstr * list value)) (v : value) (esc :
       end
   end.
 
+(* as [print_dirs]: one directive at a time -- name and arity checked, its arguments evaluated, the directive applied
+   to the result so far [v] before the next one is looked at; the list returned is applied again (the applications
+   are functions of their arguments) by [print_writes_x], which adds the obligatory directives and the escaping *)
+Fixpoint print_dirs_x (l : list node) (v : value) : M (list (bstr * list value)) :=
+  match l with
+  | [] => ret (map (fun nm => (nm, @nil value)) (c_oblig cf))
+  | NDirective _ name args :: r =>
+      match dir_entry_x name with
+      | None => fail e_nodirective
+      | Some (arglens, _) =>
+          if negb (check_num_args arglens (length args)) then fail e_arity
+          else vs <-- eval_list w args ;;;
+               v1 <-- lift (apply_directives_x [(name, vs)] v false) ;;;
+               rest <-- print_dirs_x r (fst v1) ;;;
+               ret ((name, vs) :: rest)
+      end
+  | _ :: _ => fail e_unknown
+  end.
+
 Definition print_writes_x (mode : N) (dirs : list (bstr * list value)) (v : value) : outcome (list bstr) :=
   '(v', esc) <- apply_directives_x dirs v (negb (mode =? 2)) ;;
   s <- value_string v' ;;
@@ -101,27 +106,55 @@ Definition print_x (arg : node) (dirs : list node) : M value :=
   match v with
   | VUndef => fail e_undefined
   | _ =>
-      ds <-- print_dirs_x dirs ;;;
+      ds <-- print_dirs_x dirs v ;;;
       ws <-- (st <-- get ;;; lift (print_writes_x (mode st) ds v)) ;;;
       _ <-- write_all ws ;;; ret VUndef
   end.
 
 (* ---- evalMsg with a translation ---- *)
-Fixpoint first_some {A} (l : list (option A)) : option A :=
-  match l with [] => None | Some x :: _ => Some x | None :: r => first_some r end.
 
-(* MsgNode.Placeholder(name): the body of the placeholder node with that name (the Go code searches breadth
-   first, this is depth first: placeholders of one message with the same name have the same content) *)
-Fixpoint find_placeholder (name : bstr) (n : node) {struct n} : option node :=
+(* MsgNode.Placeholder(name): the body of the first placeholder node with that name, BREADTH FIRST over Children()
+   as the Go code (a queue: a node is popped; a placeholder is compared -- and never descended into; any other
+   parent node appends its children).  Children(): of a {plural} its value, its cases, its default (a ListNode);
+   of a case its body (a ListNode); of a ListNode its nodes.  So the placeholders of the DEFAULT of a plural (two
+   levels below it) are met before those of its cases (three levels).  Same-named placeholders of one message
+   have the same content but not the same position: which one is walked shows in the line of an error.  Written
+   level by level (a queue visits the nodes of depth d, in order, before those of depth d+1; the order within a
+   level is that of the parents): [mx_ph_first] searches one level, [mx_ph_next] is the next level.  Node kinds
+   other than those four have no placeholder below them in a message the parser builds; they end the descent. *)
+Definition mx_ph_children (n : node) : list node :=
   match n with
-  | NMsgPlaceholder _ nm body => if bstr_eqb nm name then Some body else None
-  | NMsgPlural _ _ _ cases dflt =>
-      first_some (map (find_placeholder name) cases ++ map (find_placeholder name) dflt)
-  | NMsgPluralCase _ _ body => first_some (map (find_placeholder name) body)
-  | _ => None
+  | NMsgPlural _ _ pv cases dflt => pv :: cases ++ [NList 0 dflt]
+  | NMsgPluralCase _ _ body => [NList 0 body]
+  | NList _ l => l
+  | _ => []
+  end.
+Fixpoint mx_ph_first (name : bstr) (q : list node) : option node :=
+  match q with
+  | [] => None
+  | NMsgPlaceholder _ nm body :: r => if bstr_eqb nm name then Some body else mx_ph_first name r
+  | _ :: r => mx_ph_first name r
+  end.
+Definition mx_ph_next (q : list node) : list node := flat_map mx_ph_children q.
+Fixpoint mx_ph_bfs (levels : nat) (name : bstr) (q : list node) : option node :=
+  match mx_ph_first name q with
+  | Some body => Some body
+  | None =>
+      match levels, q with
+      | S k, _ :: _ => mx_ph_bfs k name (mx_ph_next q)
+      | _, _ => None
+      end
+  end.
+(* the number of levels below a node (in the sense of [mx_ph_children]) *)
+Fixpoint mx_ph_height (n : node) : nat :=
+  match n with
+  | NMsgPlural _ _ _ cases dflt => 2 + Nat.max (list_max (map mx_ph_height cases)) (list_max (map mx_ph_height dflt))
+  | NMsgPluralCase _ _ body => 2 + list_max (map mx_ph_height body)
+  | NList _ l => 1 + list_max (map mx_ph_height l)
+  | _ => 1
   end.
 Definition msg_placeholder (name : bstr) (body : list node) : option node :=
-  first_some (map (find_placeholder name) body).
+  mx_ph_bfs (list_max (map mx_ph_height body)) name body.
 
 (* findPluralNode: a top-level {plural} of the message with that variable name; its value expression *)
 Fixpoint find_plural_value (varname : bstr) (body : list node) : option node :=
